@@ -8,6 +8,7 @@ import (
 	"github.com/bmeg/grip/engine/queue"
 	"github.com/bmeg/grip/gdbi"
 	"github.com/bmeg/grip/gripql"
+	"github.com/bmeg/grip/verifhook"
 )
 
 // MarkJump creates mark where jump instruction can send travelers
@@ -36,6 +37,12 @@ func (s *JumpMark) Process(ctx context.Context, man gdbi.Manager, in gdbi.InPipe
 						} else {
 							//jump traveler recieved, pass on and skip reading input this cycle
 							jumperFound = true
+							verifhook.Point("mark.fwd_jump")
+							if msg.IsSignal() {
+								verifhook.Emit("mark.fwd_jump_signal", int64(i), 0)
+							} else {
+								verifhook.Emit("mark.fwd_jump", int64(i), 0)
+							}
 							out <- msg
 						}
 					default:
@@ -54,8 +61,11 @@ func (s *JumpMark) Process(ctx context.Context, man gdbi.Manager, in gdbi.InPipe
 					if !ok {
 						//main input has closed, move onto closing phase
 						fmt.Printf("Got input close, messages: %d\n", mCount)
+						verifhook.Emit("mark.input_closed", int64(mCount), 0)
 						inputOpen = false
 					} else {
+						verifhook.Point("mark.fwd_input")
+						verifhook.Emit("mark.fwd_input", 0, 0)
 						out <- msg
 						mCount++
 					}
@@ -87,6 +97,7 @@ func (s *JumpMark) Process(ctx context.Context, man gdbi.Manager, in gdbi.InPipe
 					} else {
 						//jump traveler recieved, pass on and skip reading input this cycle
 						if msg.IsSignal() {
+							verifhook.Emit("mark.sig_return", int64(msg.GetSignal().ID), int64(i))
 							returnCount++
 						} else {
 							if signalActive {
@@ -94,6 +105,8 @@ func (s *JumpMark) Process(ctx context.Context, man gdbi.Manager, in gdbi.InPipe
 								signalOutdated = true
 							}
 							jumperFound = true
+							verifhook.Point("mark.fwd_jump")
+							verifhook.Emit("mark.fwd_jump", int64(i), 1)
 							out <- msg
 							mCount++
 						}
@@ -114,9 +127,13 @@ func (s *JumpMark) Process(ctx context.Context, man gdbi.Manager, in gdbi.InPipe
 					signalOutdated = false
 					returnCount = 0
 					fmt.Printf("Sending Signal %d\n", curID)
+					verifhook.Point("mark.sig_send")
+					verifhook.Emit("mark.sig_send", int64(curID), int64(len(s.inputs)))
 					out <- &gdbi.BaseTraveler{Signal: &gdbi.Signal{ID: curID, Dest: s.Name}}
 				} else if signalActive && returnCount == len(s.inputs) {
 					fmt.Printf("Received %d of %d signals, closing after %d messages\n", returnCount, len(s.inputs), mCount)
+					verifhook.Point("mark.close")
+					verifhook.Emit("mark.close", int64(curID), int64(mCount))
 					closed = true
 				}
 			}
@@ -156,6 +173,7 @@ func (s *Jump) Process(ctx context.Context, man gdbi.Manager, in gdbi.InPipe, ou
 	go func() {
 		defer close(out)
 		defer close(s.jumpers)
+		defer verifhook.Point("jump.close")
 		mCount := 0
 		canceled := false
 		for t := range in {
@@ -170,6 +188,8 @@ func (s *Jump) Process(ctx context.Context, man gdbi.Manager, in gdbi.InPipe, ou
 			if t.IsSignal() {
 				// If receiving a signal from the destintion marker, send it forward
 				if t.GetSignal().Dest == s.Mark {
+					verifhook.Point("jump.sig_fwd")
+					verifhook.Emit("jump.sig_fwd", int64(t.GetSignal().ID), 0)
 					s.jumpers <- t
 				}
 				out <- t
@@ -177,10 +197,13 @@ func (s *Jump) Process(ctx context.Context, man gdbi.Manager, in gdbi.InPipe, ou
 			}
 			if s.Stmt == nil || MatchesHasExpression(t, s.Stmt) {
 				if !canceled {
+					verifhook.Point("jump.to_queue")
+					verifhook.Emit("jump.to_queue", 0, 0)
 					s.jumpers <- t
 				}
 			}
 			if s.Emit {
+				verifhook.Emit("jump.emit", 0, 0)
 				out <- t.Copy()
 				mCount++
 			}
